@@ -51,7 +51,7 @@ CATALOGUE = {
         "T.sig-other-key", "T.sig-other-certinfo", "T.cert-v1", "T.subject-nonempty", "T.san-missing",
         "T.san-no-manufacturer", "T.san-no-model", "T.san-no-version", "T.vendor-unknown", "T.eku-missing",
         "T.eku-other-first", "T.bc-missing", "T.bc-ca-true", "T.exponent-zero-key-e-ne-default",
-        "T.namealg-unmapped-sm3", "T.namealg-unmapped-null", "T.curve-unmapped-p224", "T.curve-unmapped-none", "T.curve-unmapped-bn638", "T.curve-unmapped-p192"],
+        "T.cose-exponent-above-uint32", "T.namealg-unmapped-sm3", "T.namealg-unmapped-null", "T.curve-unmapped-p224", "T.curve-unmapped-none", "T.curve-unmapped-bn638", "T.curve-unmapped-p192"],
     "apple": ["AP.x5c-missing", "AP.nonce-ext-missing", "AP.nonce-other-authdata", "AP.nonce-other-cdj",
               "AP.certkey-ne-credkey"],
     "android-key": [
@@ -299,6 +299,12 @@ def _aaguid(b: _Build) -> bytes:
 
 def _auth_data(b: _Build, counter: int) -> bytes:
     cose = None if b.has("R.at-clear") else b.cred.cose()
+    if b.has("T.cose-exponent-above-uint32") and cose is not None:
+        # the credential's COSE key states an RSA exponent that does not fit TPMS_RSA_PARMS' UINT32: it cannot equal
+        # whatever pubArea says
+        if not _is_rsa(b.cred.priv):
+            raise NotApplicable("RSA exponent fault with a non-RSA credential key")
+        cose = b.cred.cose(extra={-2: (2 ** 32 + 1).to_bytes(5, "big")})
     return core.auth_data(_rp_id_hash(b), _flags(b), counter, aaguid=_aaguid(b), cred_id=b.cred.cred_id, cose=cose,
                           ext=b.req.ext)
 
